@@ -1,4 +1,129 @@
-(* C14 — statements are being added; see DESIGN.md section 7. *)
-From XSG.Model Require Import Strings.
-Example C14_placeholder : True. Proof. exact I. Qed.
-Print Assumptions C14_placeholder.
+(* C14 — Every struct name is the PascalCase form of its own element's name, optionally followed
+   by a disambiguating suffix and preceded only by the PascalCase names of its nearest ancestors
+   in nesting order; the first struct is the root's.  An element whose PascalCase name occurs at
+   a single position of the whole tree gets that name without ancestor qualification.
+
+   The names are the entries (path, name) of the table
+       compute_struct_names e (compute_name_hints e)
+   (path = element names from the root down to the node, own name last); the renderer reads the
+   name of the struct of the node at path p with `table_get tbl p` (C14_every_struct).
+   Vocabulary (Proofs/StructNameProofs.v):
+     lastn m l            the last m elements of l                (skipn (length l - m) l)
+     count_formatted k e  number of nodes of e whose PascalCase name is k
+     spath e p            p is the name path of a node of e that gets a struct
+                          (reached through children that are not text-only)
+     dec j                decimal representation of j              (Model/Strings.v)
+   Only statements; every proof is `exact <lemma of Proofs/StructNameProofs.v>`. *)
+From Coq Require Import String.
+From XSG.Model Require Import Strings Chars Convert Necessity Element Render.
+From XSG.Proofs Require Import StructNameProofs.
+Local Open Scope list_scope.
+Local Open Scope nat_scope.
+
+(* shape of every entry: PascalCase names of the last m path components (1 <= m), then nothing
+   or a positive decimal number *)
+Theorem C14_shape :
+  forall e pth u,
+    In (pth, u) (compute_struct_names e (compute_name_hints e)) ->
+    exists m sfx, 1 <= m <= List.length pth
+      /\ u = List.concat (map to_pascal_case (lastn m pth)) ++ sfx
+      /\ (sfx = [] \/ exists j, 1 <= j /\ sfx = dec j).
+Proof. exact struct_name_shape. Qed.
+
+(* a PascalCase name that occurs at a single position of the tree is not qualified (m = 1) *)
+Theorem C14_unqualified :
+  forall e pth u,
+    In (pth, u) (compute_struct_names e (compute_name_hints e)) ->
+    count_formatted (to_pascal_case (last pth [])) e = 1 ->
+    exists sfx, u = to_pascal_case (last pth []) ++ sfx
+      /\ (sfx = [] \/ exists j, 1 <= j /\ sfx = dec j).
+Proof. exact struct_name_unqualified. Qed.
+
+(* the first struct of the output is the root's: its name is the entry at the root path, and
+   that is the root's own PascalCase name (never qualified) plus the optional suffix *)
+Theorem C14_root_first :
+  forall o e,
+    exists u sfx d rest,
+      table_get (compute_struct_names e (compute_name_hints e)) [ename e] = Some u
+      /\ render_abs o e = d :: rest /\ sd_name d = u
+      /\ u = to_pascal_case (ename e) ++ sfx
+      /\ (sfx = [] \/ exists j, 1 <= j /\ sfx = dec j).
+Proof. exact struct_name_root_first. Qed.
+
+(* the suffix consists of ASCII digits *)
+Theorem C14_digits :
+  forall sfx, (sfx = [] \/ exists j, 1 <= j /\ sfx = dec j) -> forallb a_digit sfx = true.
+Proof. exact struct_name_suffix_digits. Qed.
+
+Theorem C14_dec_digits : forall j, forallb a_digit (dec j) = true.
+Proof. exact dec_digits. Qed.
+
+(* link with the output: every struct that is rendered is named by the table entry found at
+   the path of its own node; what table_get finds is an entry *)
+Theorem C14_every_struct :
+  forall o e d,
+    In d (render_abs o e) ->
+    exists pth, spath e pth
+      /\ table_get (compute_struct_names e (compute_name_hints e)) pth = Some (sd_name d).
+Proof. exact struct_name_from_table. Qed.
+
+Theorem C14_lookup : forall t p u, table_get t p = Some u -> In (p, u) t.
+Proof. exact table_get_in. Qed.
+
+(* hence the property for the output itself *)
+Theorem C14_every_struct_shape :
+  forall o e d,
+    In d (render_abs o e) ->
+    exists pth m sfx, spath e pth /\ 1 <= m <= List.length pth
+      /\ sd_name d = List.concat (map to_pascal_case (lastn m pth)) ++ sfx
+      /\ (sfx = [] \/ exists j, 1 <= j /\ sfx = dec j)
+      /\ (count_formatted (to_pascal_case (last pth [])) e = 1 -> m = 1).
+Proof. exact every_struct_name_shape. Qed.
+
+(* non-vacuity: a tree with a qualified name (BuyerName, m = 2), a suffixed one (String1), names
+   that occur once (Seller) and twice (Name), and the structs in output order, root first *)
+Example C14_example_table :
+  ex_table =
+  [ ([s "order-list"; s "buyer"; s "string"], s "String1");
+    ([s "order-list"; s "buyer"; s "name"], s "BuyerName");
+    ([s "order-list"; s "buyer"], s "Buyer");
+    ([s "order-list"; s "seller"; s "name"], s "SellerName");
+    ([s "order-list"; s "seller"], s "Seller");
+    ([s "order-list"], s "OrderList") ].
+Proof. exact ex_table_value. Qed.
+
+Example C14_example_shape :
+  In ([s "order-list"; s "buyer"; s "name"], s "BuyerName") ex_table
+  /\ s "BuyerName" = List.concat (map to_pascal_case (lastn 2 [s "order-list"; s "buyer"; s "name"])) ++ []
+  /\ In ([s "order-list"; s "buyer"; s "string"], s "String1") ex_table
+  /\ s "String1" = List.concat (map to_pascal_case (lastn 1 [s "order-list"; s "buyer"; s "string"])) ++ dec 1.
+Proof. exact ex_shape. Qed.
+
+Example C14_example_unqualified :
+  In ([s "order-list"; s "seller"], s "Seller") ex_table
+  /\ count_formatted (to_pascal_case (last [s "order-list"; s "seller"] [])) ex_tree = 1
+  /\ count_formatted (to_pascal_case (s "name")) ex_tree = 2.
+Proof. exact ex_unqualified. Qed.
+
+Example C14_example_root_first :
+  table_get ex_table [ename ex_tree] = Some (s "OrderList")
+  /\ map sd_name (render_abs quick_xml_de ex_tree)
+     = [s "OrderList"; s "Seller"; s "SellerName"; s "Buyer"; s "BuyerName"; s "String1"].
+Proof. exact ex_root_first. Qed.
+
+Example C14_example_spath : spath ex_tree [s "order-list"; s "buyer"; s "name"].
+Proof. exact ex_spath. Qed.
+
+Print Assumptions C14_shape.
+Print Assumptions C14_unqualified.
+Print Assumptions C14_root_first.
+Print Assumptions C14_digits.
+Print Assumptions C14_dec_digits.
+Print Assumptions C14_every_struct.
+Print Assumptions C14_lookup.
+Print Assumptions C14_every_struct_shape.
+Print Assumptions C14_example_table.
+Print Assumptions C14_example_shape.
+Print Assumptions C14_example_unqualified.
+Print Assumptions C14_example_root_first.
+Print Assumptions C14_example_spath.
